@@ -996,6 +996,9 @@ func c16Compare(r *h.Result, ops, impl []string, cases []any) error {
 			return err
 		}
 		for k := i; k < j; k++ {
+			if strings.HasPrefix(ops[k], "c16capflame") {
+				model[k-i] = c16CapModelAnswer(model[k-i])
+			}
 			if impl[k] != model[k-i] {
 				stream := "stored"
 				if strings.HasPrefix(ops[k], "c16flame") {
